@@ -62,6 +62,12 @@ class Reporter:
         self.known = load_known()
         self.violations = []      # (v, replay path)
         self.known_hits = {}      # known id -> (entry, count, example)
+        try:
+            for f in os.listdir(REPLAY_DIR):
+                if f.startswith(prop + "-"):
+                    os.unlink(os.path.join(REPLAY_DIR, f))
+        except OSError:
+            pass
 
     def report(self, v, payload):
         """v: violation dict (prop, kind, cls, msg, ...); payload: replay data."""
